@@ -51,6 +51,11 @@ func GenWorld(rt *rapid.T) *World {
 	for i := 0; i < na; i++ {
 		k := Key(fmt.Sprintf("acc%d", i))
 		w.Accounts = append(w.Accounts, k)
+		if i == 0 && rapid.IntRange(0, 4).Draw(rt, "duplicateGenesisEntry") == 0 {
+			// a genesis file may list an address twice (ValidateGenesis accepts it): the later entry wins in state and the
+			// derived supply must count it once
+			fund(k, 777_000_000)
+		}
 		fund(k, rapid.SampledFrom([]int64{20_000, 1_000_000, 50_000_000, 40_000_000_000}).Draw(rt, "bal"))
 	}
 	for i := 0; i < nn; i++ {
